@@ -380,7 +380,7 @@ func c13Handshake(x *Ctx) {
 			msgs = append(msgs, &Msg{Type: Twstat, Tag: tag, Fid: 7777, Stat: nullStat(func(st *Stat) { st.Name = "x" })})
 			kinds = append(kinds, "unknown-fid")
 		case 3:
-			msgs = append(msgs, &Msg{Type: Tauth, Tag: tag, Afid: uint32(40 + i), Uname: "u1", Aname: "", Nuname: 1})
+			msgs = append(msgs, &Msg{Type: Tauth, Tag: tag, Afid: uint32(1000 + i), Uname: "u1", Aname: "", Nuname: 1}) // (not 40+i: the refused Tauth holds its number while it is in flight, and message i+20 attaches fid 40+i)
 			kinds = append(kinds, "no-auth")
 		default:
 			msgs = append(msgs, &Msg{Type: Tstat, Tag: tag, Fid: 7777})
